@@ -44,6 +44,16 @@ class Rule:
         cc = tuple(int(x) for x in c) if isinstance(c, (tuple, list, np.void, np.ndarray)) else int(c)
         self.log.append((vals, shape, cc, int(t)))
         out = self.value(vals, shape, cc, int(t))
+        self.last_out = out
+        if self.name == "half":
+            # not representable in an integer dtype: the library's assignment has to cast it
+            ret = out / self.scale + 0.5
+            if self.clobber:
+                try:
+                    np.ma.getdata(n)[...] = 3
+                except (ValueError, TypeError):
+                    pass
+            return ret
         if self.clobber:
             try:
                 np.ma.getdata(n)[...] = 3        # the block handed to the rule is the rule's to scribble on
@@ -79,7 +89,18 @@ class Rule:
             k, R = a
             s = sum(x for x in vals if x is not None)
             return (R // (k ** s)) % k
+        if nm == "half":
+            k, aa, b, off, s2 = a
+            return poly_hash(aa, b, vals) % k + off      # the extra 1/2 is added in __call__ (unscaled units)
         raise ValueError("unknown rule " + self.spec)
+
+    def stored(self):
+        """What the automaton holds after the last call, in scaled units (reference semantics of the dtype cast)."""
+        out = self.last_out
+        if self.name == "half":
+            s2 = self.args[4]
+            return (out if out >= 0 else out + 1) if s2 == 0 else out + s2
+        return out
 
     def fresh(self):
         return Rule(self.spec, self.scale)
